@@ -79,10 +79,11 @@ func mustJSON(v any) string {
 // ---- a quiescent in-process server session
 
 type session struct {
-	srv    *server.Server
-	client *stubClient
-	ctl    *doneCtl
-	dir    string
+	srv        *server.Server
+	client     *stubClient
+	ctl        *doneCtl
+	dir        string
+	initResult *protocol.InitializeResult
 }
 
 // doneCtl counts background publish jobs per URI so that the harness can wait for quiescence
@@ -125,8 +126,13 @@ func (d *doneCtl) waitJobs(key string, n int, deadline time.Duration) bool {
 }
 
 func newSession(dir string, rootDir string, initOpts any, caps bool) (*session, error) {
+	return newSessionWith(newStubClient(), dir, rootDir, initOpts, caps)
+}
+
+func newSessionWith(client *stubClient, dir string, rootDir string, initOpts any, caps bool) (*session, error) {
 	ctx := context.Background()
-	s := &session{srv: server.NewServer(), client: newStubClient(), ctl: newDoneCtl(), dir: dir}
+	installRouter()
+	s := &session{srv: server.NewServer(), client: client, ctl: newDoneCtl(), dir: dir}
 	s.srv.SetClient(s.client)
 	params := &protocol.InitializeParams{InitializationOptions: initOpts}
 	if rootDir != "" {
@@ -135,9 +141,11 @@ func newSession(dir string, rootDir string, initOpts any, caps bool) (*session, 
 	if caps {
 		params.Capabilities.Workspace = &protocol.WorkspaceClientCapabilities{Configuration: true}
 	}
-	if _, err := s.srv.Initialize(ctx, params); err != nil {
+	res, err := s.srv.Initialize(ctx, params)
+	if err != nil {
 		return nil, err
 	}
+	s.initResult = res
 	if err := s.srv.Initialized(ctx, &protocol.InitializedParams{}); err != nil {
 		return nil, err
 	}
